@@ -29,6 +29,7 @@ ASSUMPTIONS = [
     "torn pipe writes, a child killed while holding the queue lock and fork failure are below the modelled granularity",
     "canonical state = realign.py frame line numbers and simple locals + captured output + per-worker progress + queue contents; pruning is disabled if a frame holds locals of unknown kind",
     "configurations beyond 3 cores / 6 records / batch 2 are outside the explored space",
+    "configurations with a bounded pipe (capacity 1-2 messages: a worker blocks in its feeder until the parent reads) are explored on the model only; a real pipe holds 64 KiB",
 ]
 LEVEL_TEXT = (
     "The real parent loop is executed under every schedule of the closed system (2-6 workers, 1-2 records each) up to the "
@@ -174,8 +175,9 @@ def run_shard(spec, tier, scratch):
     res = fw.ShardResult()
     c = spec["config"]
     r = explore_config(res, c, scratch, tier)
-    if r is not None:
+    if r is not None and not c.get("pipe"):
         cfg, picks = r
+        # (a one-message pipe cannot be reproduced with a real 64 KiB pipe: those configurations are model-only)
         real_replays(res, c, cfg, picks, None, tier, REAL_REPLAYS[tier])
     return res
 
@@ -220,6 +222,9 @@ def replay(case, scratch):
         raise fw.HarnessError("the same schedule gave two different executions")
     v = judge(x1, expected)
     if v is not None:
+        if c.get("pipe"):
+            res.fail(v[0], v[1] + f" [model of a pipe holding {c['pipe']} message(s); a real pipe holds 64 KiB, i.e. this needs a batch whose results exceed it]", case)
+            return res.failures
         err = rc.conform_real(cfg, case["schedule"], case.get("fault"), x1)
         if err is not None:
             raise fw.HarnessError(f"counterexample does not reproduce on real processes: {err}")
